@@ -763,7 +763,7 @@ def unset(config: dict[str, Any], tag: str = "") -> None:
     )
 
 
-def collect(config: dict[str, Any], tag: str = "") -> None:
+def collect(config: dict[str, Any], tag: str = "") -> int:
     """
     Get a new test object (vm, root state) from a pool.
 
@@ -773,7 +773,7 @@ def collect(config: dict[str, Any], tag: str = "") -> None:
     ..todo:: With later refactoring of the root check implicitly getting a
         pool rool state, we can refine the parameters here.
     """
-    _reuse_tool_with_param_dict(
+    return _reuse_tool_with_param_dict(
         config,
         tag,
         {
@@ -788,14 +788,14 @@ def collect(config: dict[str, Any], tag: str = "") -> None:
     )
 
 
-def create(config: dict[str, Any], tag: str = "") -> None:
+def create(config: dict[str, Any], tag: str = "") -> int:
     """
     Create a new test object (vm, root state).
 
     :param config: command line arguments and run configuration
     :param tag: extra name identifier for the test to be run
     """
-    _reuse_tool_with_param_dict(
+    return _reuse_tool_with_param_dict(
         config,
         tag,
         {
@@ -810,14 +810,14 @@ def create(config: dict[str, Any], tag: str = "") -> None:
     )
 
 
-def clean(config: dict[str, Any], tag: str = "") -> None:
+def clean(config: dict[str, Any], tag: str = "") -> int:
     """
     Remove a test object (vm, root state).
 
     :param config: command line arguments and run configuration
     :param tag: extra name identifier for the test to be run
     """
-    _reuse_tool_with_param_dict(
+    return _reuse_tool_with_param_dict(
         config,
         tag,
         {
@@ -969,16 +969,18 @@ def _reuse_tool_with_param_dict(
     tag: str,
     param_dict: dict[str, str],
     tool: Callable[[Any], Any],
-) -> None:
+) -> int:
     """
     Reuse a previously defined tool with temporary updated parameter dictionary.
 
     :param param_dict: additional parameters to overwrite the previous dictionary with
     :param tool: tool to reuse
+    :returns: the return value of the reused tool
 
     The rest of the arguments match the public functions.
     """
     setup_dict = config["param_dict"].copy()
     config["param_dict"].update(param_dict)
-    tool(config, tag=tag)
+    result = tool(config, tag=tag)
     config["param_dict"] = setup_dict
+    return result
